@@ -792,7 +792,24 @@ class Interp:
         return set(self.eval_seq(e.elts, env, fr))
 
     def ex_JoinedStr(self, e, env, fr):
-        return "<fstring>"
+        # f-strings: evaluated when every interpolated value is a plain Python str / int (e.g. attribute names built from the
+        # phase); anything else (messages with tensors) stays an opaque placeholder, as before
+        parts = []
+        for v in e.values:
+            if isinstance(v, ast.Constant):
+                parts.append(str(v.value))
+            elif isinstance(v, ast.FormattedValue) and v.format_spec is None and v.conversion == -1:
+                try:
+                    x = self.eval(v.value, env, fr)
+                except Exception:
+                    return "<fstring>"
+                if isinstance(x, (str, int)) and not isinstance(x, bool):
+                    parts.append(str(x))
+                else:
+                    return "<fstring>"
+            else:
+                return "<fstring>"
+        return "".join(parts)
 
     def ex_Slice(self, e, env, fr):
         f = lambda x: None if x is None else self.eval(x, env, fr)
@@ -1210,6 +1227,12 @@ class Interp:
                 attrs = dict(zip(names, args))
                 attrs.update(kwargs)
                 return SelfObj(f.cls, attrs)
+            # plain class of the repository: a fresh object initialised by the real __init__ (found along the bases)
+            r = f.cls.find_method("__init__")
+            if r is not None:
+                obj = SelfObj(f.cls, {})
+                self.call(FuncRef(r[0].mod, r[1], r[0]), args, kwargs, obj)
+                return obj
             raise Unsupported(f"constructing {f.cls.name}")
         if callable(f):
             return f(*args, **kwargs)
